@@ -55,12 +55,14 @@ var defaultStubs = []struct {
 	{"github.com/canopy-network/canopy/lib.Unmarshal", StubSpec{"intrinsic", "box.Unmarshal"}},
 	{"github.com/canopy-network/canopy/lib/crypto.Hash", StubSpec{"intrinsic", "hash32"}},
 	{"github.com/canopy-network/canopy/lib/crypto.ShortHash", StubSpec{"intrinsic", "hash20"}},
-	{"github.com/canopy-network/canopy/lib/crypto.HashString", StubSpec{"intrinsic", "opaque.string"}},
-	{"github.com/canopy-network/canopy/lib/crypto.ShortHashString", StubSpec{"intrinsic", "opaque.string"}},
+	{"github.com/canopy-network/canopy/lib/crypto.HashString", StubSpec{"intrinsic", "hash32.string"}},
+	{"github.com/canopy-network/canopy/lib/crypto.ShortHashString", StubSpec{"intrinsic", "hash20.string"}},
 	{"github.com/canopy-network/canopy/lib.BytesToTruncatedString", StubSpec{"intrinsic", "opaque.string"}},
 	{"github.com/canopy-network/canopy/lib.BytesToString", StubSpec{"intrinsic", "ident.b2s"}},
 	{"github.com/canopy-network/canopy/lib.StringToBytes", StubSpec{"intrinsic", "ident.s2b"}},
 	{"github.com/canopy-network/canopy/lib.MemHash", StubSpec{"intrinsic", "memhash"}},
+	{"github.com/canopy-network/canopy/lib.NewAny", StubSpec{"intrinsic", "any.New"}},
+	{"github.com/canopy-network/canopy/lib.FromAny", StubSpec{"intrinsic", "any.From"}},
 	{"(*github.com/canopy-network/canopy/lib.Block).BytesToBlockHash", StubSpec{"intrinsic", "hash32.err"}},
 	{"(*github.com/canopy-network/canopy/lib.CertificateResult).Hash", StubSpec{"intrinsic", "hashdeep32"}},
 	{"github.com/canopy-network/canopy/lib.TimeTrack", StubSpec{"noop", ""}},
@@ -326,6 +328,18 @@ func init() {
 		return BVConst(t.sort.W, int64(k))
 	}
 	zzFuncs["zzIsSym"] = func(in *Interp, fn *ssa.Function, a []Value) Value { return True }
+	// fork-free boolean connectives for harness-side models and post-conditions
+	zzFuncs["zzAnd"] = func(in *Interp, fn *ssa.Function, a []Value) Value { return And(a[0].(*Term), a[1].(*Term)) }
+	zzFuncs["zzOr"] = func(in *Interp, fn *ssa.Function, a []Value) Value { return Or(a[0].(*Term), a[1].(*Term)) }
+	zzFuncs["zzNot"] = func(in *Interp, fn *ssa.Function, a []Value) Value { return Not(a[0].(*Term)) }
+	zzFuncs["zzImplies"] = func(in *Interp, fn *ssa.Function, a []Value) Value { return Implies(a[0].(*Term), a[1].(*Term)) }
+	zzFuncs["zzIteU64"] = func(in *Interp, fn *ssa.Function, a []Value) Value {
+		m, ok := in.mergeVal(a[0].(*Term), a[1], a[2])
+		if !ok {
+			in.unsupported("zzIteU64 merge")
+		}
+		return m
+	}
 }
 
 func (in *Interp) assertion(id string, c *Term) {
@@ -363,6 +377,13 @@ func (in *Interp) assertion(id string, c *Term) {
 
 func init() {
 	registerIntrinsic("opaque.string", func(in *Interp, fn *ssa.Function, a []Value) Value {
+		if len(a) > 0 {
+			if s, ok := a[0].(*StringV); ok {
+				if c, ok := s.concrete(); ok {
+					return mkString("<" + fn.Name() + ":" + c + ">")
+				}
+			}
+		}
 		return mkString("<" + fn.Name() + ">")
 	})
 	registerIntrinsic("opaque.error", func(in *Interp, fn *ssa.Function, a []Value) Value {
